@@ -52,6 +52,8 @@ class Registry:
         self.n_eval = 0
         self.depth = 0
         self.fault_at = None    # inject a Fault at the k-th evaluate call (1-based), or None
+        self.view_settings = None
+        self.views = []         # circular runs: (constraint handles, central handles, restriction tokens) per view built
 
     def handle(self, obj):
         k = id(obj)
@@ -284,6 +286,51 @@ def patch_tape():
     np.random.randint, np.random.choice = randint, choice
 
 
+_view_patched = False
+
+
+def patch_circular_view():
+    """Record every `_circularized_view(...)` built during a recorded circular run: the view's specification
+    objects become handles, the view problem becomes a `Rec` (its sequence assignments are traced); the
+    specification calls made while the view is being constructed are not part of the modelled run."""
+    global _view_patched
+    if _view_patched:
+        return
+    _view_patched = True
+    import dnachisel as dc
+    from dnachisel import Location
+    from gen import hard
+    cls = dc.CircularDnaOptimizationProblem
+    orig = cls._circularized_view
+
+    def _circularized_view(self, *a, **k):
+        if not REG.active or REG.suppress or REG.depth:
+            return orig(self, *a, **k)
+        seq3 = 3 * self.sequence
+        REG.depth += 1
+        try:
+            view = orig(self, *a, **k)
+        finally:
+            REG.depth -= 1
+        view.__class__ = rec_class(type(view))
+        L = len(self.sequence)
+        central_loc = Location(L, 2 * L)
+        cons = [REG.handle(c) for c in view.constraints]
+        central = [REG.handle(c) for c in view.constraints if c.location.overlap_region(central_loc) is not None]
+        stub = hard.Stub(seq3)
+        stub.constraints = view.constraints
+        REG.depth += 1
+        try:
+            rt = hard.restr_tokens(hard.restrictions_of(stub))
+        finally:
+            REG.depth -= 1
+        REG.views.append((cons, central, rt))
+        REG.view_settings = settings_tokens(view)
+        return view
+    _circularized_view._vp_orig = orig
+    cls._circularized_view = _circularized_view
+
+
 _rec_cache = {}
 
 
@@ -309,6 +356,7 @@ OPS = {
     "rnd_resolve": lambda p: p.resolve_constraints_by_random_mutations(),
     "exh_optimize": lambda p: p.optimize_by_exhaustive_search(),
     "rnd_optimize": lambda p: p.optimize_by_random_mutations(),
+    "circ_resolve": lambda p: p.resolve_constraints(),
 }
 
 
@@ -338,6 +386,8 @@ def run_recorded(problem, op, seq0, restr_tokens, fault_at=None, focus_handles=(
     (request_line, impl_answer, info)."""
     patch_all()
     patch_tape()
+    if op.startswith("circ"):
+        patch_circular_view()
     REG.reset()
     REG.fault_at = fault_at
     cons = [REG.handle(c) for c in problem.constraints]
@@ -363,10 +413,14 @@ def run_recorded(problem, op, seq0, restr_tokens, fault_at=None, focus_handles=(
     EF = " ".join("%d:%s" % (k, v) for k, v in sorted(REG.EF.items()))
     A = " ".join(a for a in REG.A if a is not None)
     H = " ".join("%d:%s:%s:%d" % (h, stok(s), stok(s2), ok) for (h, s), (s2, ok) in REG.H)
-    line = " | ".join(["solve." + op, settings_tokens(problem), stok(seq0), restr_tokens, stok(start_seq),
+    # the three-copy view is a fresh problem: it runs with the default solver settings, not the circular problem's
+    sett_tokens = REG.view_settings if (op.startswith("circ") and REG.view_settings) else settings_tokens(problem)
+    line = " | ".join(["solve." + op, sett_tokens, stok(seq0), restr_tokens, stok(start_seq),
                        " ".join(map(str, cons)), " ".join(map(str, objs)), attrs, E, EF, A, H,
-                       " ".join(map(str, REG.tape)), " ".join(map(str, focus_handles))])
+                       " ".join(map(str, REG.tape)), " ".join(map(str, focus_handles))]
+                      + [x for cons_v, central_v, rt in REG.views
+                         for x in (" ".join(map(str, cons_v)), " ".join(map(str, central_v)), rt)])
     answer = "%s ; %s ; %s ; %d" % (outcome, stok(problem.sequence), ",".join(stok(s) for s in REG.trace), len(REG.tape))
     info = dict(outcome=outcome, n_eval=REG.n_eval, n_handles=len(REG.objs), tape=len(REG.tape), trace=len(REG.trace),
-                attrs_mutated=mutated, exception=info_exc, heuristics=len(REG.H))
+                attrs_mutated=mutated, exception=info_exc, heuristics=len(REG.H), views=len(REG.views))
     return line, answer, info
